@@ -595,6 +595,14 @@ impl World {
     }
 }
 
+thread_local! {
+    static DEBUG_CLOCK_BASE: std::cell::Cell<Option<tokio::time::Instant>> = const { std::cell::Cell::new(None) };
+}
+/// Virtual milliseconds since the start of the simulation running on this thread (debug output only).
+pub fn debug_now_ms() -> u64 {
+    DEBUG_CLOCK_BASE.with(|c| c.get()).map(|b| b.elapsed().as_millis() as u64).unwrap_or(0)
+}
+
 pub struct Sim;
 impl Sim {
     /// Runs `f` inside a fresh current-thread runtime with a paused clock and the d-engine hooks armed.
@@ -614,6 +622,7 @@ impl Sim {
                 min + (state >> 33) % span
             })));
             let clock_base = tokio::time::Instant::now();
+            DEBUG_CLOCK_BASE.with(|c| c.set(Some(clock_base)));
             let history = Arc::new(Mutex::new(History::default()));
             let net = Net::new(seed, history.clone(), clock_base, net::LinkParams::default());
             let world = World {
